@@ -12,6 +12,7 @@ C: the compressed shape of every real accepted proof is validated by TLC against
    on the recorded Fiat-Shamir query tuple (spec/MCFriCompressTrace)."""
 import json
 import os
+import re
 from concurrent.futures import ThreadPoolExecutor
 
 import common
@@ -19,6 +20,17 @@ from common import ToolError, log
 
 LEVEL = "model_checking"
 BIN = "c16"
+
+
+def _canary(chk, name, passed):
+    """A canary demonstrates that the machinery can detect.  Once property-level violations (or layout drift)
+    were observed, the code under test is not the code the canary was calibrated on: a canary that then fails is
+    recorded as not evaluated instead of turning a decided run into a tool error."""
+    if passed or not (chk.violations or chk.drift or chk.known_seen):
+        chk.canary(name, passed)
+    else:
+        chk.extra.setdefault("canaries_not_evaluated", []).append(name)
+        log("[canary] not evaluated (violations/drift present): " + name)
 
 
 def _tlc(job):
@@ -68,41 +80,22 @@ def run(chk, tier):
         chk.canary("spec-mutant rejected by TLC: %s (%s)" % (what, cfg), results["canary " + cfg].violated is not None)
     chk.exhaustive = True
 
-    # ---- B1: enumerated tuples on the real FriProof::compress
-    scen = (common.tagged(results[jobs[0][0]].prints, "REPLAY") + common.tagged(results[jobs[1][0]].prints, "REPLAY"))
-    if len(scen) < 9000:
-        raise ToolError("MCFriCompress printed only %d scenarios" % len(scen))
-    common.write_ndjson(o("c16-fri-scen.ndjson"), scen)
-    out = common.vh(["replay-fricompress", "--scen", o("c16-fri-scen.ndjson")], binname=BIN)[-1]
-    chk.evaluations += out["replayed"]
-    chk.nontrivial += out["replayed"]
-    chk.traces += out["replayed"]
-    for s in out["samples"]:
-        chk.sample(s)
-    for d in out["drift"]:
-        chk.note_drift(d)
-    for v in out["violations"]:
-        chk.violation(v["key"], v, {"violation": v, "how": "vh c16 replay-fricompress"})
-    chk.extra["fricompress_replay"] = {"scenarios": len(scen), "replayed": out["replayed"], "classes": out["classes"]}
-    for cls in ("repeated_index", "shared_layer0", "shared_deeper", "distinct"):
-        chk.canary("enumerated tuples contain class " + cls, out["classes"][cls] > 0)
-    k = next(i for i, s in enumerate(scen) if s["rep"] is False and s["share"][0] and len(s["q"]) == 2)
-    can = common.vh(["replay-fricompress", "--scen", o("c16-fri-scen.ndjson"), "--corrupt", k], binname=BIN)[-1]
-    chk.canary("a wrong predicted removed position is noticed by the replay", len(can["drift"]) == 1)
-
-    # ---- B2: real proofs
+    # ---- B2 (first: the property-level verdicts): real proofs - round trips both ways, verdict equivalence
     for s in real["samples"]:
         chk.sample(s)
     for d in real["drift"]:
         chk.note_drift(d)
     for v in real["violations"]:
+        # key = C16/roundtrip/<schedule>/<what>/<configuration>
         chk.violation(v["key"] + "/" + v.get("ctx", {}).get("cfg", "?"), v,
                       {"violation": v, "how": "vh c16 real (VERIF_SEED=%d); configuration id in ctx.cfg" % common.seed()})
-    n_eval = real["roundtrips"] + real["verdict_pairs"] + real["tampered"] + real["redundant_tampers"]
+    n_eval = (real["roundtrips"] + real["recompressions"] + real["verdict_pairs"] + real["tampered"]
+              + real["redundant_tampers"])
     chk.evaluations += n_eval
     chk.nontrivial += n_eval
     chk.traces += real["roundtrips"]
-    keep = ("configs", "skipped_configs", "skip_reasons", "proofs", "roundtrips", "verdict_pairs", "tampered",
+    keep = ("configs", "skipped_configs", "skip_reasons", "proofs", "roundtrips", "recompressions",
+            "roundtrips_by_schedule", "verdict_pairs", "tampered",
             "tampered_both_accept", "tampered_compress_panics", "redundant_tampers", "redundant_rejected_plain",
             "redundant_accepted_compressed", "classes", "lde_bits", "schedules", "traces", "honest_rejected")
     chk.extra["real"] = {k: real[k] for k in keep}
@@ -110,38 +103,83 @@ def run(chk, tier):
                                    "element): a proof altered ONLY there is rejected by verify while its compression equals "
                                    "the honest one and is accepted - outside the property's domain (accepted proofs), "
                                    "predicted by spec/FriCompress, reported here as information")
-    if real["proofs"] < 100 or real["roundtrips"] < 100:
-        raise ToolError("only %d real proofs / %d round trips" % (real["proofs"], real["roundtrips"]))
+    if real["proofs"] < 100:
+        raise ToolError("only %d real proofs" % real["proofs"])
     cls = real["classes"]
-    chk.canary("real proofs with a repeated query index occurred", cls["repeated_index"] > 0)
-    chk.canary("real proofs with a shared coset at layer 0 occurred", cls["shared_coset_per_layer"][0] > 0)
-    chk.canary("real proofs with a shared coset at a deeper layer occurred", sum(cls["shared_coset_per_layer"][1:]) > 0)
-    chk.canary("shape-preserving tampers were rejected through both paths",
-               real["tampered"] > 0 and real["tampered_both_accept"] < real["tampered"])
+    nonconst = sorted(k for k, n in real["roundtrips_by_schedule"].items()
+                      if n > 0 and len(set(json.loads(k))) > 1)
+    chk.extra["nonconstant_schedules_roundtripped"] = nonconst
+    _canary(chk, "real proofs under at least two distinct non-constant arity schedules were round-tripped: %s" % nonconst,
+            len(nonconst) >= 2)
+    _canary(chk, "real proofs were round-tripped (decompress o compress and compress o decompress)",
+            real["roundtrips"] >= 100 and real["recompressions"] >= 100)
+    _canary(chk, "real proofs with a repeated query index occurred", cls["repeated_index"] > 0)
+    _canary(chk, "real proofs with a shared coset at layer 0 occurred", cls["shared_coset_per_layer"][0] > 0)
+    _canary(chk, "real proofs with a shared coset at a deeper layer occurred", sum(cls["shared_coset_per_layer"][1:]) > 0)
+    _canary(chk, "shape-preserving tampers were rejected through both paths",
+            real["tampered"] > 0 and real["tampered_both_accept"] < real["tampered"])
     can = common.vh(["real", "--proofs", 1, "--limit", 40, "--canary-flip"], binname=BIN)[-1]
-    chk.canary("one flipped element of a decompressed proof is reported",
-               can["proofs"] > 0 and len([v for v in can["violations"] if v["key"] == "C16/roundtrip"]) >= min(can["proofs"], 20) - 2)
+    hits = [v for v in can["violations"] if v["key"].startswith("C16/roundtrip/")
+            and v["key"].endswith("/decompress-compress-not-identity")]
+    _canary(chk, "one flipped element of a decompressed proof is reported",
+            can["proofs"] > 0 and len(hits) >= min(can["proofs"], 20) - 2)
 
-    # ---- C: traces of the real compressions against FriCompress
+    # ---- B1: enumerated tuples on the real FriProof::compress: data must not be lost (property level),
+    #      the layout is the model's (DRIFT level)
+    scen = (common.tagged(results[jobs[0][0]].prints, "REPLAY") + common.tagged(results[jobs[1][0]].prints, "REPLAY"))
+    if len(scen) < 9000:
+        raise ToolError("MCFriCompress printed only %d scenarios" % len(scen))
+    common.write_ndjson(o("c16-fri-scen.ndjson"), scen)
+    out = common.vh(["replay-fricompress", "--scen", o("c16-fri-scen.ndjson")], binname=BIN)[-1]
+    chk.evaluations += out["replayed"] + out["lossless_checked"]
+    chk.nontrivial += out["replayed"] + out["lossless_checked"]
+    chk.traces += out["replayed"]
+    for s in out["samples"]:
+        chk.sample(s)
+    for d in out["drift"]:
+        chk.note_drift(d)
+    for v in out["violations"]:
+        chk.violation(v["key"], v, {"violation": v, "how": "vh c16 replay-fricompress"})
+    drifted = set(out["drift_scenario_ids"])
+    chk.extra["fricompress_replay"] = {"scenarios": len(scen), "replayed": out["replayed"],
+                                       "lossless_checked": out["lossless_checked"],
+                                       "scenarios_with_layout_drift": len(drifted), "classes": out["classes"]}
+    for cls_name in ("repeated_index", "shared_layer0", "shared_deeper", "distinct"):
+        _canary(chk, "enumerated tuples contain class " + cls_name, out["classes"][cls_name] > 0)
+    # binding canary, evaluated on a scenario whose layout comparison is clean
+    k = next((i for i, s in enumerate(scen) if s["rep"] is False and s["share"][0] and len(s["q"]) == 2
+              and len(s["ar"]) == 1 and i not in drifted), None)
+    if k is None:
+        chk.extra.setdefault("canaries_not_evaluated", []).append(
+            "a wrong predicted removed position is noticed by the replay (every candidate scenario already drifts)")
+    else:
+        can = common.vh(["replay-fricompress", "--scen", o("c16-fri-scen.ndjson"), "--corrupt", k], binname=BIN)[-1]
+        _canary(chk, "a wrong predicted removed position is noticed by the replay",
+                set(can["drift_scenario_ids"]) - drifted == {k})
+
+    # ---- C: traces of the real compressions against FriCompress (DRIFT level; skipped once a violation decides)
     rows = common.read_ndjson(o("c16-traces.ndjson"))
+    if chk.violations:
+        chk.extra.setdefault("canaries_not_evaluated", []).append("trace validation skipped: violations already decide")
+        return
     if len(rows) < 100:
         raise ToolError("only %d traces recorded" % len(rows))
     rows = rows[:400 if thorough else 250]
-    for rep in range(4):
+    clean = False
+    for rep in range(3):
         common.write_ndjson(o("c16-traces-use.ndjson"), rows)
         r = common.tlc("MCFriCompressTrace", cfg="MCFriCompressTrace", workers=8, timeout=1200,
                        env={"TRACE": o("c16-traces-use.ndjson")}, tag="c16-trace")
         chk.add_tlc("traces of %d real compressed proofs" % len(rows), r)
         if r.ok:
             chk.traces += len(rows)
+            clean = True
             break
         bad = None
         for line in r.raw.splitlines():
-            if "id |->" in line:
-                import re
-                m = re.search(r"id \|-> (\d+)", line)
-                if m:
-                    bad = int(m.group(1))
+            m = re.search(r"id \|-> (\d+)", line)
+            if m:
+                bad = int(m.group(1))
         if bad is None or not (1 <= bad <= len(rows)):
             raise ToolError("TLC rejected the traces but no record was identified:\n" + r.raw[-1500:])
         rec = rows[bad - 1]
@@ -149,15 +187,22 @@ def run(chk, tier):
             chk.note_drift({"what": "real compressed proof has another shape than spec/FriCompress", "record": rec})
         else:
             raise ToolError("specification FriCompress violates %s on the real query tuple %s" % (r.violated, rec["q"]))
-        rows = rows[:bad - 1] + rows[bad:]
-    # binding canary: corrupt one record
-    bad = json.loads(json.dumps(rows[:20]))
-    k = next(i for i, t in enumerate(bad) if t["steps"] and t["steps"][0])
-    bad[k]["steps"][0][0]["cands"] = [c ^ 1 for c in bad[k]["steps"][0][0]["cands"]]
-    common.write_ndjson(o("c16-traces-canary.ndjson"), bad)
-    r = common.tlc("MCFriCompressTrace", cfg="MCFriCompressTrace", workers=2, timeout=300,
-                   env={"TRACE": o("c16-traces-canary.ndjson")}, tag="c16-trace-canary")
-    chk.canary("a corrupted removed position in one recorded trace is rejected by TLC", r.violated == "ShapeOk")
+        # drop all records of that configuration and try the rest once more
+        rows = [t for t in rows if t.get("cfg") != rec.get("cfg")]
+        if not rows:
+            break
+    # binding canary: corrupt one record (only meaningful when the records themselves are accepted)
+    if clean:
+        bad = json.loads(json.dumps(rows[:20]))
+        k = next(i for i, t in enumerate(bad) if t["steps"] and t["steps"][0])
+        bad[k]["steps"][0][0]["cands"] = [c ^ 1 for c in bad[k]["steps"][0][0]["cands"]]
+        common.write_ndjson(o("c16-traces-canary.ndjson"), bad)
+        r = common.tlc("MCFriCompressTrace", cfg="MCFriCompressTrace", workers=2, timeout=300,
+                       env={"TRACE": o("c16-traces-canary.ndjson")}, tag="c16-trace-canary")
+        _canary(chk, "a corrupted removed position in one recorded trace is rejected by TLC", r.violated == "ShapeOk")
+    else:
+        chk.extra.setdefault("canaries_not_evaluated", []).append(
+            "a corrupted removed position in one recorded trace is rejected by TLC (records drift)")
 
 
 def replay(path):
